@@ -3,7 +3,11 @@
    field / node descriptor, and every corpus descriptor is well formed.  Closed by vm_compute
    (kernel-checked); with the soundness lemmas of LayoutMain this transports the universally
    quantified theorems about gen_accessor to the emitted code. *)
-From CV Require Import Layout.Layout Layout.BytesProofs Layout.LayoutProofs Layout.LayoutMain Gen.GenAccessors.
+From CV Require Import Layout.Layout.
+From CV Require Import Layout.BytesProofs.
+From CV Require Import Layout.LayoutProofs.
+From CV Require Import Layout.LayoutMain.
+From CV Require Import Gen.GenAccessors.
 Open Scope Z_scope.
 
 Lemma generated_fields_match : fields_match fields = true.
